@@ -85,12 +85,15 @@ PROPS["C02"] = dict(
         "quick": [
             dict(pkg="./storage", entry="VerifC02", bounds="ops=3,kinds=3,ids=2,metashapes=3,maxlevel=1,cfg=0", reach=["end"]),
             dict(pkg="./storage", entry="VerifC02", bounds="ops=2,kinds=6,ids=2,metashapes=3,maxlevel=0,cfg=1", reach=["end"]),
+            # metadata the snapshot format cannot represent: refused, nothing changed (also on the remove+insert update path)
+            dict(pkg="./storage", entry="VerifC02", bounds="ops=2,kinds=6,ids=2,metashapes=2,longmeta=1,maxlevel=0,cfg=1", reach=["end"], must_assert=["unrepresentable-metadata-refused"]),
         ],
         "thorough": [
             dict(pkg="./storage", entry="VerifC02", bounds="ops=4,kinds=3,ids=2,metashapes=3,maxlevel=1,cfg=0", reach=["end"]),
             dict(pkg="./storage", entry="VerifC02", bounds="ops=3,kinds=6,ids=2,metashapes=2,maxlevel=0,cfg=1", reach=["end"]),
             dict(pkg="./storage", entry="VerifC02", bounds="ops=2,kinds=6,ids=3,metashapes=4,maxlevel=1,cfg=2", reach=["end"]),
             dict(pkg="./storage", entry="VerifC02", bounds="ops=3,kinds=3,ids=3,metashapes=3,maxlevel=1,cfg=3", reach=["end"]),
+            dict(pkg="./storage", entry="VerifC02", bounds="ops=3,kinds=3,ids=2,metashapes=2,longmeta=1,maxlevel=0,cfg=1", reach=["end"], must_assert=["unrepresentable-metadata-refused"]),
         ],
     },
     outside="sequences longer than the bound; more than 2 items per batch; levels above 1 (the BytesSize link estimate is then a float expression, only its data part is claimed); the proposer side (C11)",
@@ -108,13 +111,13 @@ PROPS["C08"] = dict(
             dict(pkg="./index", entry="VerifC08", bounds="ops=2,reader=1,header=0,target=0,metashapes=2", reach=["loaded", "end"]),
             dict(pkg="./index", entry="VerifC08", bounds="ops=2,reader=2,header=1,target=1,metashapes=3", reach=["loaded", "end"]),
             dict(pkg="./index", entry="VerifC08", bounds="ops=5,cfg=0,maxlevel=0,metashapes=1,header=0,target=0,reader=0", reach=["loaded", "end"]),
-            dict(pkg="./index", entry="VerifC08Len", bounds="", unwind=70000, reach=["len-end"]),
+            dict(pkg="./index", entry="VerifC08Len", bounds="", unwind=70000, reach=["len-end", "insert-refused"]),
         ],
         "thorough": [
             dict(pkg="./index", entry="VerifC08", bounds="ops=4,reader=0,metashapes=2,cfg=1", reach=["loaded", "end"]),
             dict(pkg="./index", entry="VerifC08", bounds="ops=3,metashapes=3,cfg=0", reach=["loaded", "end"]),
             dict(pkg="./index", entry="VerifC08", bounds="ops=3,reader=1,metashapes=2,cfg=4", reach=["loaded", "end"]),
-            dict(pkg="./index", entry="VerifC08Len", bounds="klo=250,khi=260,vlo=65530,vhi=65540", unwind=70000, reach=["len-end"]),
+            dict(pkg="./index", entry="VerifC08Len", bounds="klo=250,khi=260,vlo=65530,vhi=65540", unwind=70000, reach=["len-end", "insert-refused"]),
         ],
     },
     outside="indexes with more than 3 items / 4 operations; more than 65535 metadata entries per item (uint16 count field; not constructible within the bound); memory use for foreign input; chunkings other than all/1/2..5 bytes per call",
@@ -209,10 +212,12 @@ PROPS["C17"] = dict(
     technique="bounded symbolic execution of go/ssa (gosmt) with modelled goroutines/channels: placements, failures and schedules are path decisions, remote sizes are 64-bit solver variables (z3)",
     explanation="real Dataset.SizeInfo with its lookup goroutines, closer and collector; local partitions hold real indexes, remote ones are harness pb.DataManagerClient implementations answering by the partition id in the request",
     runs={
-        "quick": [dict(pkg="./storage", entry="VerifC17", bounds="maxp=3,placements=4", reach=["sized", "end"])],
-        "thorough": [dict(pkg="./storage", entry="VerifC17", bounds="maxp=3,placements=4,preempt=2", reach=["sized", "end"])],
+        "quick": [dict(pkg="./storage", entry="VerifC17", bounds="maxp=3,placements=4,gone=0", reach=["sized", "end"]),
+                  dict(pkg="./storage", entry="VerifC17", bounds="maxp=2,placements=4,gone=1", reach=["sized", "end"])],
+        "thorough": [dict(pkg="./storage", entry="VerifC17", bounds="maxp=3,placements=4,preempt=2,gone=0", reach=["sized", "end"]),
+                     dict(pkg="./storage", entry="VerifC17", bounds="maxp=3,placements=4,preempt=1,gone=1", reach=["sized", "end"])],
     },
-    outside="more than 3 partitions / 2 remote nodes; caller-context cancellation; interleavings finer than synchronisation points",
+    outside="more than 3 partitions / 2 remote nodes (2 partitions in the quick run with departed nodes); caller-context cancellation; interleavings finer than synchronisation points",
     assumptions=COMMON_ASSUME + ["remote data-manager services are harness implementations of pb.DataManagerClient",
                                  "goroutines are interleaved at synchronisation points only; the read of the captured loop variable is exposed because goroutine start is such a point"],
     replay_attempts=200,
@@ -287,17 +292,23 @@ PROPS["C12"] = dict(
     runs={
         "quick": [
             dict(pkg="./services", entry="VerifC12", bounds="rpclo=0,rpchi=2", reach=["dataset-created", "handler-returned", "end"]),
-            dict(pkg="./services", entry="VerifC12", bounds="rpclo=3,rpchi=8,mindim=1,minp=1,minr=1,spaces=1,maxdim=1", reach=["dataset-created", "handler-returned", "end"]),
-            dict(pkg="./services", entry="VerifC12", bounds="rpclo=9,rpchi=16,maxdim=1", reach=["dataset-created", "handler-returned", "end"]),
+            dict(pkg="./services", entry="VerifC12", bounds="rpclo=3,rpchi=8,mindim=1,minp=1,minr=1,spaces=1,maxdim=1,levelshapes=1", reach=["dataset-created", "handler-returned", "end"]),
+            dict(pkg="./services", entry="VerifC12", bounds="rpclo=9,rpchi=17,maxdim=1", reach=["dataset-created", "handler-returned", "end"]),
+            # client-supplied BatchItem.level (0, negative, huge) on the batch insert paths
+            dict(pkg="./services", entry="VerifC12", bounds="rpclo=3,rpchi=6,levelshapes=3,idshapes=2,vecshapes=1,valshapes=1,metashapes=1,mindim=1,minp=1,minr=1,spaces=1,maxdim=1", reach=["dataset-created", "handler-returned", "end"]),
+            # over-long metadata keys/values on every write path; the resulting state must snapshot and restore
+            dict(pkg="./services", entry="VerifC12", bounds="rpclo=0,rpchi=7,metashapes=4,idshapes=1,vecshapes=1,valshapes=1,levelshapes=1,mindim=1,minp=1,minr=1,spaces=1,maxdim=1,maxp=1", reach=["dataset-created", "handler-returned", "end"]),
         ],
         "thorough": [
             dict(pkg="./services", entry="VerifC12", bounds="rpclo=0,rpchi=2,valshapes=3,metashapes=2", reach=["dataset-created", "handler-returned", "end"]),
-            dict(pkg="./services", entry="VerifC12", bounds="rpclo=3,rpchi=8,mindim=1,minp=1,minr=1,spaces=1,maxdim=2", reach=["dataset-created", "handler-returned", "end"]),
-            dict(pkg="./services", entry="VerifC12", bounds="rpclo=9,rpchi=16,maxdim=2,valshapes=3", reach=["dataset-created", "handler-returned", "end"]),
-            dict(pkg="./services", entry="VerifC12", bounds="rpclo=0,rpchi=16,mindim=1,minp=1,minr=1,spaces=1,maxdim=1,det=0,idshapes=2,vecshapes=2", max_seconds=3000, reach=["dataset-created", "handler-returned", "end"]),
+            dict(pkg="./services", entry="VerifC12", bounds="rpclo=3,rpchi=8,mindim=1,minp=1,minr=1,spaces=1,maxdim=2,levelshapes=1", max_seconds=3000, reach=["dataset-created", "handler-returned", "end"]),
+            dict(pkg="./services", entry="VerifC12", bounds="rpclo=3,rpchi=8,mindim=1,minp=1,minr=1,spaces=1,maxdim=1,levelshapes=3", max_seconds=3000, reach=["dataset-created", "handler-returned", "end"]),
+            dict(pkg="./services", entry="VerifC12", bounds="rpclo=0,rpchi=8,metashapes=4,idshapes=2,vecshapes=2,valshapes=1,levelshapes=1,mindim=1,minp=1,minr=1,spaces=1,maxdim=1", max_seconds=3000, reach=["dataset-created", "handler-returned", "end"]),
+            dict(pkg="./services", entry="VerifC12", bounds="rpclo=9,rpchi=17,maxdim=2,valshapes=3", reach=["dataset-created", "handler-returned", "end"]),
+            dict(pkg="./services", entry="VerifC12", bounds="rpclo=0,rpchi=17,mindim=1,minp=1,minr=1,spaces=1,maxdim=1,det=0,idshapes=2,vecshapes=2", max_seconds=3000, reach=["dataset-created", "handler-returned", "end"]),
         ],
     },
-    outside="the gRPC framing layer and a live multi-node process; requests in sequence beyond create + optional insert + one hostile request + list; over-long metadata (a C08 known finding); oversized batches beyond the cap check itself; a restart that replays the log (every proposal is applied once by the real ready loop; replay on a fresh replica is not re-executed); one schedule per request (deterministic scheduling) except in the last thorough run",
+    outside="the gRPC framing layer and a live multi-node process; requests in sequence beyond create + optional insert + one hostile request + list; oversized batches beyond the cap check itself; a restart that replays the log (every proposal is applied once by the real ready loop; replay on a fresh replica is not re-executed); one schedule per request (deterministic scheduling) except in the last thorough run",
     assumptions=COMMON_ASSUME + ["etcd raft nodes are harness nodes (verifrt.Hook) committing each proposal at once; natively the replay uses real single-member raft nodes",
                                  "Badger is the API-level model; gRPC dialling fails in the model (a one-node dataset search that dials its own address returns an error)",
                                  "SIMD wrappers are modelled by their Go part (&a[0], &b[0]) followed by the portable kernel"],
@@ -407,26 +418,27 @@ PROPS["C20"] = dict(
 
 PROPS["C13"] = dict(
     level="model_checking",
-    technique="bounded symbolic execution of go/ssa (gosmt) with baton-scheduled goroutines: the real Hnsw Insert/Remove/Search/Get/Len run in 2-3 goroutines; every interleaving at lock acquisitions and sync/atomic operations within the preemption bound is a path; operation kinds, ids and levels are path decisions (no solver variables: verdict by exhaustive path enumeration of the symbolic executor)",
-    explanation="reduced claim (DESIGN.md section 5 C13): (a) one writer with concurrent readers, as the server uses the index: no panic, no state with every goroutine blocked; insert/remove outcomes and final contents (Get per id, Len) explained by a sequential order; a concurrent search returns only items present initially or inserted concurrently, with true scores, ascending, unique, at most k; at quiescence the C01 search guarantees hold; (b) two concurrent inserts: the same; (c) concurrent insert/remove and remove/remove: explored as well; the four entrypoint hand-over races they expose are listed known findings (natively demonstrated by findings/C13_stress_test.go.txt), anything else is a violation. Plain-memory data races are invisible to this executor (code between two scheduling points runs atomically) and are not decided",
+    technique="bounded symbolic execution of go/ssa (gosmt) with baton-scheduled goroutines: the real Hnsw Insert/Remove/Search/Get/Len run in 2-3 goroutines; every interleaving at lock acquisitions and sync/atomic operations within the preemption bound is a path, with vector-clock happens-before race detection on every path; operation kinds, ids and levels are path decisions (no solver variables: verdict by exhaustive path enumeration of the symbolic executor)",
+    explanation="reduced claim (DESIGN.md section 5 C13): (a) one writer with concurrent readers, as the server uses the index: no panic, no state with every goroutine blocked; insert/remove outcomes and final contents (Get per id, Len) explained by a sequential order; a concurrent search returns only items present initially or inserted concurrently, with true scores, ascending, unique, at most k; at quiescence the C01 search guarantees hold; (b) two concurrent inserts: the same; (c) concurrent insert/remove and remove/remove: explored as well; the four entrypoint hand-over races they expose are listed known findings (natively demonstrated by findings/C13_stress_test.go.txt), anything else is a violation. (d) data races: with verifrt.RaceDetect every interpreted goroutine carries a vector clock, the modelled synchronisation operations transfer clocks, and every heap load/store, map read/update/iteration and slice copy/append is checked on every explored schedule: two accesses to one cell, one a write, not both through sync/atomic, that no happens-before edge orders are a violation (confirmed natively by the Go race detector on the replayed history)",
     runs={
         "quick": [
-            dict(pkg="./index", entry="VerifC13", bounds="cfg=0,preempt=2,init=2,ids=3,maxlevel=1,writers=1,kinds=4", reach=["joined", "end"]),
-            dict(pkg="./index", entry="VerifC13", bounds="cfg=0,preempt=2,init=2,ids=3,maxlevel=1,kinds=1", reach=["joined", "end"]),
-            dict(pkg="./index", entry="VerifC13", bounds="cfg=0,preempt=2,init=2,ids=3,maxlevel=1,kinds=2", known_no_replay=True, vio_grace=0, reach=["joined", "end"]),
+            dict(pkg="./index", entry="VerifC13", bounds="cfg=0,preempt=2,init=2,ids=3,maxlevel=1,writers=1,kinds=4,race=1", reach=["joined", "end"]),
+            dict(pkg="./index", entry="VerifC13", bounds="cfg=0,preempt=2,init=2,ids=3,maxlevel=1,kinds=1,race=1", reach=["joined", "end"]),
+            dict(pkg="./index", entry="VerifC13", bounds="cfg=0,preempt=2,init=2,ids=3,maxlevel=1,kinds=2,race=1", known_no_replay=True, vio_grace=0, reach=["joined", "end"]),
         ],
         "thorough": [
-            dict(pkg="./index", entry="VerifC13", bounds="cfg=0,preempt=3,init=2,ids=3,maxlevel=1,writers=1,kinds=4", max_seconds=3000, reach=["joined", "end"]),
-            dict(pkg="./index", entry="VerifC13", bounds="cfg=4,preempt=2,init=3,ids=4,maxlevel=1,writers=1,kinds=4", max_seconds=3000, reach=["joined", "end"]),
-            dict(pkg="./index", entry="VerifC13", bounds="cfg=2,preempt=2,init=2,ids=3,maxlevel=1,writers=1,kinds=4", max_seconds=3000, reach=["joined", "end"]),
-            dict(pkg="./index", entry="VerifC13", bounds="cfg=0,preempt=1,init=2,ids=3,maxlevel=1,writers=1,kinds=4,threads=3", max_seconds=3000, reach=["joined", "end"]),
-            dict(pkg="./index", entry="VerifC13", bounds="cfg=0,preempt=2,init=2,ids=3,maxlevel=1,kinds=2", known_no_replay=True, vio_grace=0, max_seconds=3000, reach=["joined", "end"]),
+            dict(pkg="./index", entry="VerifC13", bounds="cfg=0,preempt=3,init=2,ids=3,maxlevel=1,writers=1,kinds=4,race=1", max_seconds=3000, reach=["joined", "end"]),
+            dict(pkg="./index", entry="VerifC13", bounds="cfg=4,preempt=2,init=3,ids=4,maxlevel=1,writers=1,kinds=4,race=1", max_seconds=3000, reach=["joined", "end"]),
+            dict(pkg="./index", entry="VerifC13", bounds="cfg=2,preempt=2,init=2,ids=3,maxlevel=1,writers=1,kinds=4,race=1", max_seconds=3000, reach=["joined", "end"]),
+            dict(pkg="./index", entry="VerifC13", bounds="cfg=0,preempt=1,init=2,ids=3,maxlevel=1,writers=1,kinds=4,threads=3,race=1", max_seconds=3000, reach=["joined", "end"]),
+            dict(pkg="./index", entry="VerifC13", bounds="cfg=0,preempt=2,init=2,ids=3,maxlevel=1,kinds=2,race=1", known_no_replay=True, vio_grace=0, max_seconds=3000, reach=["joined", "end"]),
         ],
     },
-    outside="data races on plain memory and weak-memory effects (the executor interleaves at lock acquisitions, channel operations and atomic operations only; run the Go race detector for those); more than 3 goroutines; more than one operation per goroutine; vectors are fixed 1-D points; timing/linearization points of searches beyond 'present initially or inserted concurrently'",
+    outside="weak-memory effects beyond the happens-before criterion; races between operation pairs/ids/levels outside the bound; races the over-approximated happens-before of the channel and rwmutex models orders; more than 3 goroutines; more than one operation per goroutine; vectors are fixed 1-D points; timing/linearization points of searches beyond 'present initially or inserted concurrently'",
     assumptions=COMMON_ASSUME + ["goroutines are interleaved at lock acquisitions, channel operations, go statements and sync/atomic operations (verifrt.AtomicSwitch); code between two such points runs atomically",
                                  "at most `preempt` preemptions per schedule (a goroutine that blocks or ends does not consume the budget)"],
     replay_attempts=200000,
+    race_replay_attempts=400000,
     replay_timeout=45,
     replays_per_signature=1,
     max_native_replays=6,
